@@ -31,7 +31,7 @@ ASSUMPTIONS = [
     "accesses to Python source/byte-code/shared objects (lazy imports) are not counted as file access",
     "a 20 s alarm per case reports 'inconclusive' (counted), never a violation",
 ]
-BUDGET = {"quick": (16, 600), "thorough": (16, 15000)}
+BUDGET = {"quick": (16, 1200), "thorough": (16, 15000)}
 N_MUT = 29
 
 
